@@ -14,9 +14,24 @@ PAYLOADS = [
 INERT = "inert"
 
 
+def _encoded_word(p):
+    """RFC 2047 encoded word whose decoded text carries line breaks and a block header"""
+    import base64
+    if p == INERT:
+        raw = b"E inert inert inert inert"
+    else:
+        raw = ("E " + p + "\r\n+ADMIN:\r\n Admin: " + p).encode("utf-8", "surrogateescape")
+    return "=?utf-8?b?" + base64.b64encode(raw).decode("ascii") + "?="
+
+
 def mk_tree(p, mtime=1_700_000_000):
     """A site where every content-derived echo position carries the string p (no '/' in file names)."""
     fn = p.replace("/", "_")
+    hostile = p != INERT
+
+    def h(a, b):
+        """structure-like text only in the hostile world; the inert world has inert text of the same line count"""
+        return a if hostile else b
     t = [
         {"path": "f1-" + fn + ".txt", "data": "one\n"},
         {"path": "f2-" + fn + ".bin", "data": "two\n"},
@@ -25,20 +40,27 @@ def mk_tree(p, mtime=1_700_000_000):
         {"path": "page.html", "data": "<html><head><title>T " + p.replace("&", "&amp;").replace("<", "&lt;").replace(">", "&gt;")
                                        + "</title></head><body></body></html>\n"},
         {"path": "page2.html", "data": "<html><head><title>U " + p + "</title></head></html>\n"},
-        {"path": "mail.mbox", "data": "From a@b.c Mon Jan  1 00:00:00 2024\nSubject: S " + p + "\n\nbody\n"},
+        {"path": "mail.mbox", "data": "From a@b.c Mon Jan  1 00:00:00 2024\nSubject: S " + p + "\n\nbody\n\n"
+                                      "From b@b.c Tue Jan  2 00:00:00 2024\nSubject: " + _encoded_word(p) + "\n\nbody two\n\n"
+                                      "From c@b.c Wed Jan  3 00:00:00 2024\nSubject: folded\n " + p + "\n\t" + h("+ADMIN:", "more") + "\n\nbody three\n"},
         {"path": "abs.txt", "data": "x\n"},
-        {"path": "abs.txt.abstract", "data": "A " + p + "\nsecond " + p + "\n+INFO: 0fake\t/x\th\t70\n+ADMIN:\n Admin: evil\n+" + p + ":\n"},
-        {"path": "abs.txt.keywords", "data": "+VIEWS:\nkw " + p + "\x0b+X:\x0c+Y:\x1c+Z:\x85+W:\u2028+V:\n".encode("utf-8").decode("latin-1")},
+        {"path": "abs.txt.abstract", "data": "A " + p + "\nsecond " + p + "\n" + h("+INFO: 0fake\t/x\th\t70\n+ADMIN:\n Admin: evil\n+" + p + ":\n",
+                                                                                 "third line\nfourth\n fifth\nsixth\n")},
+        {"path": "abs.txt.keywords", "data": h("+VIEWS:\nkw " + p + "\x0b+X:\x0c+Y:\x1c+Z:\x85+W:\u2028+V:\n".encode("utf-8").decode("latin-1"),
+                                               "views\nkw inert\nx\ny\nz\nw\nv\n")},
         {"path": ".abstract", "data": "root abstract " + p + "\n"},
         {"path": "umn", "kind": "dir"},
         {"path": "umn/one.txt", "data": "1\n"},
         {"path": "umn/.Links", "data": "Name=N " + p + "\nType=1\nPath=/pub/" + p + "\nHost=h" + p + ".example\nPort=70\n\n"
                                       "Name=W " + p + "\nType=h\nPath=URL:http://www.example.org/" + p + "\n\n"
                                       "Name=Q " + p + "\nType=7\nPath=/search" + p + "\nHost=+\nPort=+\n\n"
+                                      "Name=RQ " + p + "\nType=7\nPath=/rsearch" + p + "\nHost=rs" + p + ".example\nPort=7071\n\n"
+                                      "Name=UQ " + p + "\nType=7\nPath=URL:http://find.example/" + p + "\n\n"
                                       "Name=L " + p + "\nType=0\nPath=/a" + p + "\nHost=+\nPort=+\nAbstract=LA " + p + "\n"},
         {"path": "maps", "kind": "dir"},
         {"path": "maps/gophermap", "data": "info " + p + "\n0D " + p + "\t/sel" + p + "\n1R " + p + "\t/r" + p + "\thost" + p + ".example\t7070\n"
-                                           "hU " + p + "\tURL:http://www.example.com/" + p + "\n7S " + p + "\t/s" + p + "\n"},
+                                           "hU " + p + "\tURL:http://www.example.com/" + p + "\n7S " + p + "\t/s" + p + "\n"
+                                           "7RS " + p + "\t/rs" + p + "\trhost" + p + ".example\t7072\n7US " + p + "\tURL:http://q.example/" + p + "\n"},
         {"path": "text.txt", "data": "line " + p + "\n\n" + p + "\n<p>&amp;</p>\n"},
     ]
     for e in t:
@@ -58,10 +80,16 @@ def mk_requests(p):
         R.append((f"{proto}:404-search", b"GET " + pre + b"/nonexistent?searchrequest=" + q + b" HTTP/1.0\r\n\r\n", tls))
         R.append((f"{proto}:url-redirect", b"GET " + pre + b"/URL:http://www.example.com/" + q + b" HTTP/1.0\r\n\r\n", tls))
         R.append((f"{proto}:text", b"GET " + pre + b"/text.txt HTTP/1.0\r\n\r\n", tls))
+        fq = gen.pct(p.replace("/", "_").encode("utf-8", "surrogateescape"), safe=b"")
+        R.append((f"{proto}:doc-named", b"GET " + pre + b"/f1-" + fq + b".txt HTTP/1.0\r\n\r\n", tls))
+        for n in (b"1", b"2", b"3"):
+            R.append((f"{proto}:mail-{n.decode()}", b"GET " + pre + b"/mail.mbox%7C/MBOX-MESSAGE/" + n + b" HTTP/1.0\r\n\r\n", tls))
         R.append((f"{proto}:head", b"HEAD " + pre + b"/f1-" + gen.pct(p.replace("/", "_").encode(), safe=b"") + b".txt HTTP/1.0\r\n\r\n", tls))
-    for path in (b"/", b"/umn", b"/maps", b"/abs.txt", b"/mail.mbox"):
+    for path in (b"/", b"/umn", b"/maps", b"/abs.txt", b"/mail.mbox", b"/mail.mbox|/MBOX-MESSAGE/1", b"/mail.mbox|/MBOX-MESSAGE/2",
+                 b"/mail.mbox|/MBOX-MESSAGE/3", b"/page.html", b"/page2.html"):
         R.append(("gopherplus:$:" + path.decode(), path + b"\t$\r\n", False))
         R.append(("gopherplus:!:" + path.decode(), path + b"\t!\r\n", False))
+        R.append(("sgopherplus:!:" + path.decode(), path + b"\t!\r\n", True))
     R.append(("gopherplus:404", b"/nonexistent-" + p.encode("utf-8").replace(b"\t", b" ") + b"\t!\r\n", False))
     return R
 
@@ -155,6 +183,7 @@ def run(tier):
                                        "page_excerpt": _excerpt(hv["body"], p), "tree": "mk_tree(payload)"},
                                       tag=f"markup-injection:{proto}:{label.split(':')[1]}")
             else:
+                proto = "gopherplus"
                 hh, ih = gplus_headers(hb), gplus_headers(ib)
                 if hh != ih:
                     stats["gplus_header_diffs"] += 1
